@@ -297,7 +297,9 @@ class OpHarness(symex.Harness):
         m = eng.vc(Z.And(neg, *[Z.Not(p) for _, _, p in preds])) if preds else eng.vc(neg)
         if m is not None:
             if len(self.viol) < 40:
-                self.viol.append(dict(res=list(res), vars={str(v): concretise.model_int(m, v) for v in self.sb.vars}))
+                negk = Z.And(neg, *[Z.Not(p) for _, _, p in preds]) if preds else neg
+                for mm in eng.models(negk, self.sb.vars, 3):
+                    self.viol.append(dict(res=list(res), vars={str(v): concretise.model_int(mm, v) for v in self.sb.vars}))
             else:
                 self.witness["more_violations"] = self.witness.get("more_violations", 0) + 1
         elif preds:
@@ -330,7 +332,12 @@ class OpHarness(symex.Harness):
         pass
 
     # replay of a candidate counterexample on the real stack
-    def concrete_job(self, vars_, const="spelled"):
+    def replay_variants(self):
+        if str(self.pm).startswith("rc2"):
+            return ["rc2-g4", "rc2-cd", "rc2-m22", "rc2-mgh", "rc2-mc", "rc2-mcb", "rc2-gc3", "rc2-gc4", "rc2-mpl", "rc2-mcm", "rc2-g42", "rc2-cd15", "rc2-cd19", "rc2-mep", "rc2-mg3"]
+        return []
+
+    def concrete_job(self, vars_, const="spelled", pm=None):
         def leafval(name):
             return vars_[name]
         sb = self.sb
@@ -344,7 +351,7 @@ class OpHarness(symex.Harness):
         qa = concretise.formula_tree(sb.side("QA", 0), leafval_of(vars_), const)
         q = [[1, qc, qa, "(%s|%s)" % (concretise.tree_to_text(qc), concretise.tree_to_text(qa))]]
         return {"atoms": list(CTX.atom_names), "steps": [
-            {"op": "manager", "id": "m", "base": base, "system": self.system, "pmaxsat": self.pm or "rc2", "weakly": self.weakly},
+            {"op": "manager", "id": "m", "base": base, "system": self.system, "pmaxsat": pm or self.pm or "rc2", "weakly": self.weakly},
             {"op": "inference", "mgr": "m", "queries": q}]}
 
     def expected_concrete(self, vars_):
@@ -376,7 +383,7 @@ def judge_replay(h, cand, const="spelled"):
     vars_ = cand["vars"]
     tt.set_universe(h.N)
     acc, exp = h.expected_concrete(vars_)
-    job = h.concrete_job(vars_, const)
+    job = h.concrete_job(vars_, const, pm=cand.get("variant"))
     out = concretise.run_real(job)
     rec = dict(harness=h.label, symbolic_result=cand["res"], tables=vars_, job=job, real=out,
                expected=dict(base_accepted=acc, answer=exp))
